@@ -136,11 +136,14 @@ func TestVerifC34Child(t *testing.T) {
 
 func TestVerifC34Storage(t *testing.T) {
 	r := verifkit.Start(t, "C34", "pitr")
-	defer r.Finish("crashbox over the restore scanner in pkg/storage: collectRecoverableBatches(segment, T) with T in {+inf, first batch's first timestamp, that + 500 ms, -inf} (whole-batch path, per-record scanRecord path, nothing kept), buildRestorePlan(segment, index, T) with T in {first, first + 500 ms, +inf} on the crashbox's exact-capacity bytes and with T = +inf on bytes downloaded from the in-memory S3 fake (once delivering exact-capacity copies like a Content-Length sized read, once its own size-class rounded copies), the whole RecoverTopicToTimestamp (T in {+inf, first + 500 ms}) over the S3 fake holding the hostile segment+index in both delivery modes, and ParseIndex on the index container; every input is handed over as a fresh slice whose capacity equals its length, so a read past the end of the object (e.g. a header peek on a runt frame at the end of the body) is a panic rather than a read of slack bytes; same corpus, child-process containment, panic / death / > 64 MiB per call oracle and site classes as the processor legs; non-trivial = input passes size/magic/framing",
+	defer r.Finish("crashbox over the restore scanner in pkg/storage: collectRecoverableBatches(segment, T) with T in {+inf, first batch's first timestamp, that + 500 ms, -inf} (whole-batch path, per-record scanRecord path, nothing kept), buildRestorePlan(segment, index, T) with T in {first, first + 500 ms, +inf} on the crashbox's exact-capacity bytes and with T = +inf on bytes downloaded from the in-memory S3 fake (once delivering exact-capacity copies like a Content-Length sized read, once its own size-class rounded copies), the whole RecoverTopicToTimestamp (T in {+inf, first + 500 ms}) over the S3 fake holding the hostile segment+index in both delivery modes, and ParseIndex on the index container; every input is handed over as a fresh slice whose capacity equals its length, so a read past the end of the object (e.g. a header peek on a runt frame at the end of the body) is a panic rather than a read of slack bytes; same corpus (incl. the attribute sweep whose batches span first .. first + 1000 ms so that both cut-offs fall inside them), child-process containment, panic / death / > 64 MiB per call / does-not-return oracle and site classes as the processor legs; non-trivial = input passes size/magic/framing. The child also logs the return of every call; the parent polls which call is open and the child's consumed CPU time (utime+stime from /proc/<pid>/stat): a call that stays open while the child burns 20 s of CPU time (inputs are <= 64 KiB) is a hang candidate: the child is killed, the input is re-run alone in a fresh child under the same CPU-time rule (with a SIGQUIT goroutine dump for information), and only if it again burns 20 s of CPU without returning is it a violation, class decoder_does_not_return:<decoder>.<entry point>, with the input bytes as replay; the remaining inputs continue in a new child; at most 3 hang investigations per leg, a further candidate is killed, reported inconclusive and ends the target. Elapsed time decides nothing: a child that stalls without consuming CPU only trips the 10-minute wall-clock watchdog (inconclusive; at most 2 per target).",
+		"'returns records or an error' is read operationally as: one call on an input of at most 64 KiB consumes less than 20 s of CPU time (returning calls take micro- to milliseconds); decided on the child's CPU time, never on elapsed time, and only when reproduced alone in a fresh child",
 		"child address space capped at 4 GiB (RLIMIT_AS); race detector off in this leg for that reason")
 	dir := verifc34.CorpusDir()
 	work := filepath.Join(filepath.Dir(dir), "c34work-storage")
 	base := verifc34.Config{Dir: work, ChildTest: "^TestVerifC34Child$", Batch: 4000, ASLimit: 4 << 30, Timeout: 10 * time.Minute, MaxDeaths: r.N(150, 1500)}
+	hangBudget := verifc34.DefaultHangBudget // hang investigations (kill + confirm alone) for the whole leg
+	base.HangBudget = &hangBudget
 	reach := func(in *verifc34.Input) bool { return verifc34.ReachesBatchParser(in.Data) }
 	for _, tg := range c34Targets()[:3] {
 		c := base
